@@ -53,7 +53,7 @@ def run(ctx):
                         "and the parser shape invariant ShapeOK (checked on every real tree, reported as inv)"]
     ctx.regen()
     ctx.extra_lean_dirs = ["C10"]
-    ctx.prove(["TsVerif.C02.Props", "TsVerif.C02.EditProps", "TsVerif.C02.BalanceProps", "TsVerif.C02.BalanceSumm"], "TsVerif/C02/Audit.lean")
+    ctx.prove(["TsVerif.C02.Props", "TsVerif.C02.EditProps", "TsVerif.C02.BalanceProps", "TsVerif.C02.BalanceSumm", "TsVerif.C02.WidthProps"], "TsVerif/C02/Audit.lean")
     driver = ctx.build_driver("tsv-c02")
     explorer = ctx.cargo_bin("c02")
     langdump = ctx.cunit("cunit_c02")
@@ -97,6 +97,8 @@ def run(ctx):
     per_clause = {}
     bom_docs = 0
     bom_langs = set()
+    widths = {"measured": 0, "assumed": 0, "ok": False, "detail": "probe did not run"}
+    widest = 0
     for line in out.split("\n"):
         if not line.strip():
             continue
@@ -104,6 +106,19 @@ def run(ctx):
         if r is None:
             continue
         cid, corr, inv, judge, kv = r
+        if kv.get("widthcase") == "1":
+            # widths of the cached fields of the real SubtreeHeapData (unity build) vs TsVerif.C02.assumedBits
+            widths["measured"] = int(kv.get("measured", "0") or 0)
+            widths["assumed"] = int(kv.get("assumed", "0") or 0)
+            widths["ok"] = corr == "ok"
+            widths["detail"] = detail(corr, "tie:field-widths") if corr != "ok" else "all fields hold what the model assumes"
+            if corr != "ok":
+                ctx.violation("tie", "a cached field of SubtreeHeapData is narrower than the Nat-valued model of ts_subtree_summarize_children assumes "
+                              "(sums over the children would wrap): %s" % widths["detail"][:600],
+                              {"case": cid, "clause": "tie:field-widths", "verdict": corr[:1500],
+                               "correspondence": "TsVerif.C02.assumedBits vs lib/src/subtree.h:SubtreeHeapData (measured through the runtime's accessors)"},
+                              fingerprint={"lang": "-", "clause": "tie:field-widths"}, found_input=False)
+            continue
         if kv.get("balcase") == "1":
             # a rebalancing case: real ts_subtree_compress / ts_parser__balance_subtree on an unbalanced tree
             lang = cid.rsplit("-", 1)[0][4:]
@@ -150,6 +165,7 @@ def run(ctx):
         for k in totals:
             totals[k] += int(kv.get(k, "0") or 0)
         nb = int(kv.get("bytes", "0") or 0)
+        widest = max(widest, int(kv.get("maxvcc", "0") or 0))
         sizes["0" if nb == 0 else "1-15" if nb < 16 else "16-255" if nb < 256 else "256-4095" if nb < 4096 else "4096+"] += 1
         nontrivial = False
         for k in FEATURES:
@@ -190,6 +206,12 @@ def run(ctx):
                               {"case": cid, "spec": spec}, fingerprint={"lang": lang, "clause": "inv"}, found_input=False)
     ctx.oblige("corr:summarize=ts_subtree_summarize_children", corr_bad == 0, "%d trees with disagreements" % corr_bad)
     ctx.oblige("corr:ShapeOK-holds-on-real-trees", inv_bad == 0, "%d trees" % inv_bad)
+    if not ctx.replay:
+        ctx.oblige("tie:cached-field-widths-of-SubtreeHeapData-measured>=assumedBits(every count / cost / extent that grows with the document holds 32 bits; "
+                   "all-ones heap record read back through ts_node_child_count, ts_node_named_child_count, ts_subtree_visible_descendant_count, ...)",
+                   widths["ok"] and widths["measured"] >= widths["assumed"] > 0,
+                   "%d fields measured, %d assumed: %s" % (widths["measured"], widths["assumed"], widths["detail"][:400]))
+    ctx.coverage["field_widths"] = widths
     ctx.oblige("corr:compress/balance-port=ts_subtree_compress/ts_parser__balance_subtree(every field of every node of the real result)",
                bal["corr_bad"] == 0 and (bal["changed"] > 0 or bool(ctx.replay) or bal["cases"] == 0 and evals == 0),
                "%d rebalancing cases (%d changed the tree), %d disagree" % (bal["cases"], bal["changed"], bal["corr_bad"]))
@@ -216,7 +238,7 @@ def run(ctx):
                 "(7 kinds), NBSP/U+2028/astral, random bytes, token soup, long repeats, deep nesting); one evaluation = one real tree with "
                 "full internal dump + public-API walk; non-trivial := the tree has a hidden node with visible children, an alias, an extra, "
                 "an ERROR, a MISSING, a multi-line token or a zero-width token; distinct by hash of (language, text, edits)",
-        "samples": samples, "kinds": kinds, "document_bytes": sizes, "trees_with_feature": feat, "node_totals": totals,
+        "samples": samples, "kinds": kinds, "document_bytes": sizes, "trees_with_feature": feat, "node_totals": totals, "largest_visible_child_count": widest,
         "explorer_summary": last,
         "bom_prefixed_documents_with_a_token_on_row_0": {"documents": bom_docs, "languages": len(bom_langs)},
         "correspondence": {"compared": evals, "equal": evals - corr_bad, "inner_nodes_recomputed": totals["inner"]},
@@ -230,6 +252,9 @@ def run(ctx):
         if len(distinct) * 4 < evals:
             ctx.oblige("generator:nontrivial-fraction>=25%", False, "%d of %d" % (len(distinct), evals))
         # seed-independent by construction: corpus/c02.txt + the `bom` / `bom-multiline` special documents of every language
+        # seed-independent: corpus/c02.txt has documents with >= 65 536 flat children under one node
+        ctx.oblige("generator:has-node-with->=65536-visible-children(cached counts beyond 16 bits, judged like every other tree)",
+                   widest >= 65536, "largest cached visible_child_count in an explored tree: %d" % widest)
         ctx.oblige("generator:BOM-prefixed-documents-with-a-token-on-row-0-for->=20-languages(UTF-8 EF BB BF; C02 drives UTF-8 only)",
                    len(bom_langs) >= 20, "%d documents, %d languages" % (bom_docs, len(bom_langs)))
     return ctx.finish()
